@@ -146,6 +146,18 @@ CHECKS = {
    note=TB + 'no theorem about generate_parser.py; the meaning of the meta-grammar itself is covered by the C01-C06 theorems applied to grammar.txt like to any grammar.',
    technique='Coq lemmas for the inference (a reproduced text is reproduced forever; same text, same behaviour) + concrete textual fixed-point check of bootstrap generations 0/1/2 + differential corpus run',
    ref='DESIGN.md §6 C12'),
+ 'C13': dict(
+   text='Coq theorems on the model of name resolution through the per-module context objects (Ctx.v), for chains of ANY length: '
+        'C13_context_is_late_binding (the context the translator builds — own rules, then every ancestor\'s rules not yet defined — '
+        'resolves a name exactly as walking the chain from the most derived grammar does), C13_override_wins, '
+        'C13_unmentioned_rules_as_in_parent, C13_super_is_the_static_parent (super.R written in a grammar denotes R below that '
+        'grammar whatever grammar the parse was started through). The behaviour of the modules is decided by comparing every '
+        'generated chain (2-3 named grammars over a 4-rule base, every mix of overridden/inherited/new rules, super at every '
+        'level, ignore declarations in base and/or derived, modules used in random order) with its FLATTENED grammar on ~250 '
+        'inputs, the parent before/after, and inherited entry points.',
+   note=TB + 'partial: importlib/sys.modules plumbing, re-parsing of the parent\'s description and ignore handling are covered by the differential runs only. Known finding: entry points of inherited rules/classes run with the parent\'s context.',
+   technique='Coq proof on a context-resolution model + differential comparison of grammar chains with their flattened grammar',
+   ref='DESIGN.md §6 C13'),
  'C14': dict(
    text='Coq theorems on a model of ParsedObject.__eq__/__hash__/_hash over nested values (scalars with Python\'s == quotiented, '
         'lists, tuples, objects): C14_eq_iff (equal iff same class and pairwise equal fields), C14_eq_refl/sym/trans (equivalence '
